@@ -90,6 +90,7 @@ type ChurnResult struct {
 	Watchdog       string
 	StoreEventsFor func(key string) []StoreEvent `json:"-"`
 	KVTimeouts     int64
+	HookLog        []string
 }
 
 var t0 = time.Now()
@@ -451,6 +452,9 @@ func RunChurnKV(cfg ChurnCfg, scratch string) *ChurnResult {
 	res.Ops = c.ops
 	res.MemberLog = c.log
 	res.StoreEventsFor = lab.StoreEventsFor
+	for _, e := range lab.Events() {
+		res.HookLog = append(res.HookLog, fmt.Sprintf("[%d] %s @%d", e.T, e.Point, e.Node))
+	}
 	res.KVTimeouts = counter(&lab.Calls, "kv-timeouts").Load()
 	return res
 }
